@@ -14,3 +14,10 @@ import Rv.Props.C09
 #print axioms Rv.Props.C09.stored_body_paired
 #print axioms Rv.Props.C09.if_range_mismatch_full
 #print axioms Rv.Props.C09.status_valid
+#print axioms Rv.Props.C09.env_agrees_when_unchanged
+#print axioms Rv.Props.C09.status_comes_from_origin_env
+#print axioms Rv.Props.C09.gateway_error_is_the_origins_env
+#print axioms Rv.Props.C09.never_gateway_error_env
+#print axioms Rv.Props.C09.never_bad_gateway_env
+#print axioms Rv.Props.C09.vanished_entry_falls_back_env
+#print axioms Rv.Props.C09.vanished_entry_second_request_unconditional
